@@ -98,7 +98,7 @@ def tagOf (s : St) (name : String) (op : Op) : String :=
     | some x, some y => name ++ same x y.ext
     | _, _ => name
   | .assignMove i j => if i = j then name ++ "/self" else name
-  | .reextent i es | .reextentFill i es | .reextentRv i es =>
+  | .reextent i es | .reextentFill i es | .reextentRv i es | .assignFill i es =>
     match getArr s i with | some x => name ++ same x es | none => name
   | .assignView i j sl _ =>
     match getArr s i, getArr s j with
@@ -106,7 +106,7 @@ def tagOf (s : St) (name : String) (op : Op) : String :=
     | _, _ => name
   | .assignRange i j =>
     match getArr s i, getArr s j with
-    | some x, some y => name ++ (if headSize y = headSize x then "/same" else "/diff")
+    | some x, some y => name ++ (if rangeInPlace x y then "/same" else "/diff")
     | _, _ => name
   | _ => name
 
@@ -138,6 +138,7 @@ def parseOp (ws : List String) : Option (String × Op) :=
         | "reextent_fill", i :: es => some (.reextentFill (nat i) (parseExts es))
         | "reextent_rv", i :: es => some (.reextentRv (nat i) (parseExts es))
         | "reshape", i :: es => some (.reshape (nat i) (parseExts es))
+        | "assign_fill", i :: es => some (.assignFill (nat i) (parseExts es))
         | "assign_view", [i, j, lo, hi] => some (.assignView (nat i) (nat j) (sl lo hi) false)
         | "assign_viewl", [i, j, lo, hi] => some (.assignView (nat i) (nat j) (sl lo hi) true)
         | "assign_range", [i, j] => some (.assignRange (nat i) (nat j))
